@@ -81,9 +81,42 @@ class ImmutableBaseModel(BaseModel):
         super().__setattr__(name, value)
 '''
 
+# the same class with attribute deletion guarded as well (the repair proposed for finding F18e: `del cfg.gradient` is
+# accepted today); the translator accepts either shape and records which one the tree has
+_EXPECTED_IMMUTABLE_BASE_DEL = _EXPECTED_IMMUTABLE_BASE + '''
+    def __delattr__(self, name: str) -> None:
+        if self._is_immutable:
+            msg = f"{self.__class__.__name__} is immutable"
+            raise AttributeError(msg)
+        super().__delattr__(name)
+'''
+
 CONFIG_FILES = ["_enopt_config.py", "_variables_config.py", "_objective_functions_config.py", "_realizations_config.py",
                 "_gradient_config.py", "_linear_constraints_config.py", "_nonlinear_constraints_config.py",
                 "_optimizer_config.py", "_realization_filter_config.py", "_function_estimator_config.py", "_sampler_config.py"]
+
+
+
+# names a field annotation of a configuration class may consist of (besides the Array* types of validated_types.py and
+# the configuration classes themselves); anything else -- a bare ndarray type, a new converting type, a model class defined
+# elsewhere -- makes the translator fail closed, because the tables below would not know what is stored there
+_ANNOTATION_NAMES = {"int", "float", "bool", "str", "dict", "list", "tuple", "Any", "Path", "PositiveInt", "NonNegativeInt",
+                     "NonNegativeFloat", "ItemOrTuple"}
+
+
+def _check_annotation(ann, allowed, where):
+    from translator import TranslatorError
+    for n in ast.walk(ann):
+        if isinstance(n, ast.Name):
+            if n.id not in allowed:
+                raise TranslatorError(f"{where}: field annotation uses the unknown type {n.id}")
+        elif isinstance(n, ast.Attribute):
+            raise TranslatorError(f"{where}: field annotation uses a qualified type ({ast.unparse(n)})")
+        elif isinstance(n, ast.Constant):
+            if n.value is not None and n.value is not Ellipsis:
+                raise TranslatorError(f"{where}: field annotation holds the constant {n.value!r}")
+        elif not isinstance(n, (ast.Subscript, ast.BinOp, ast.BitOr, ast.Tuple, ast.Load)):
+            raise TranslatorError(f"{where}: unsupported construct in a field annotation ({type(n).__name__})")
 
 
 def _strip_docstrings(node):
@@ -164,6 +197,15 @@ def _class_entry(cls, fname):
         raise TranslatorError(f"{fname}:{cls.name}: unexpected bases {bases}")
     validators = []
     for st in cls.body:
+        if isinstance(st, ast.FunctionDef) and st.name.startswith("__"):
+            # __setattr__ / __delattr__ / __init__ / model_post_init-like hooks would change what a validated object accepts
+            raise TranslatorError(f"{cls.name}.{st.name}: a configuration class defines a special method")
+        if isinstance(st, ast.FunctionDef) and not _is_validator(st) and st.name.startswith("model_"):
+            raise TranslatorError(f"{cls.name}.{st.name}: a configuration class overrides a pydantic method")
+        if not isinstance(st, (ast.FunctionDef, ast.AnnAssign, ast.Assign, ast.Expr, ast.Pass)):
+            raise TranslatorError(f"{cls.name}: unsupported statement in the class body (line {st.lineno})")
+        if isinstance(st, ast.Assign) and not (len(st.targets) == 1 and isinstance(st.targets[0], ast.Name) and st.targets[0].id == "model_config"):
+            raise TranslatorError(f"{cls.name}: class-level assignment other than model_config (line {st.lineno})")
         if isinstance(st, ast.FunctionDef):
             if _is_validator(st):
                 validators.append((st.name, _items(st.body, f"{cls.name}.{st.name}")))
@@ -361,6 +403,9 @@ def _array_tables(tr):
     if not aliases:
         raise TranslatorError("validated_types.py: no Array* types found")
     alias_names = {a for a, _ in aliases}
+    class_names = set()
+    for f in CONFIG_FILES:
+        class_names |= {n.name for n in tr.parse("config/enopt/" + f).body if isinstance(n, ast.ClassDef)}
     fields, stores = [], []
     for f in CONFIG_FILES:
         tree = tr.parse("config/enopt/" + f)
@@ -373,6 +418,12 @@ def _array_tables(tr):
                             if isinstance(st, ast.AnnAssign) and any(x is n for x in ast.walk(st.annotation)):
                                 raise TranslatorError(f"{f}: field {ast.unparse(st.target)} is annotated with a bare ndarray type")
         cls = [n for n in tree.body if isinstance(n, ast.ClassDef)][0]
+        allowed = _ANNOTATION_NAMES | alias_names | class_names
+        for st in cls.body:
+            if isinstance(st, ast.AnnAssign):
+                if not isinstance(st.target, ast.Name):
+                    raise TranslatorError(f"{f}:{cls.name}: annotated assignment to something that is not a field name")
+                _check_annotation(st.annotation, allowed, f"{f}:{cls.name}.{st.target.id}")
         af = [st.target.id for st in cls.body if isinstance(st, ast.AnnAssign) and isinstance(st.target, ast.Name)
               and any(isinstance(x, ast.Name) and x.id in alias_names for x in ast.walk(st.annotation))]
         fields.append((cls.name, af))
@@ -390,8 +441,10 @@ def translate(repo):
         raise TranslatorError("ImmutableBaseModel not found in config/utils.py")
     got = ast.dump(_strip_docstrings(found[0]))
     want = ast.dump(_strip_docstrings(ast.parse(_EXPECTED_IMMUTABLE_BASE).body[0]))
-    if got != want:
-        raise TranslatorError("ImmutableBaseModel (_immutable/_mutable/__setattr__) does not have the expected shape")
+    want_del = ast.dump(_strip_docstrings(ast.parse(_EXPECTED_IMMUTABLE_BASE_DEL).body[0]))
+    if got not in (want, want_del):
+        raise TranslatorError("ImmutableBaseModel (_immutable/_mutable/__setattr__[/__delattr__]) does not have the expected shape")
+    guards_delete = got == want_del
     # 2. per class: kind and the flag-call items of every validator, in definition order
     entries = []
     for f in CONFIG_FILES:
@@ -427,6 +480,8 @@ def translate(repo):
         rows.append(f'  {{| cc_name := "{name}"; cc_kind := {kind}; cc_validators := [{vs}] |}}')
     out.append(";\n".join(rows))
     out += ["].", "",
+            "(* ImmutableBaseModel also defines the guarded __delattr__ (attribute deletion raises once the flag is set) *)",
+            f"Definition immutable_base_guards_delete : bool := {'true' if guards_delete else 'false'}.", "",
             "Definition gen_enums : enums := {|",
             f"  vt_lo := {min(vt.values())}%Z; vt_hi := {max(vt.values())}%Z;",
             f"  pt_lo := {min(pt.values())}%Z; pt_hi := {max(pt.values())}%Z;",
@@ -627,7 +682,7 @@ def valid_case(rng, V=None, precise=False):
     if nl_n and rng.random() < 0.35:
         nl_scales = [rng.choice([0.5, 1.0, 2.0, 4.0]) for _ in range(nl_n)]
     return {"cfg": cfg, "scaler": scaler, "nl_scales": nl_scales, "obj_scaler": rng.random() < 0.2,
-            "kind": "valid-precise" if precise else "valid"}
+            "kind": "valid-precise" if precise else "valid", "spell": rng.randrange(1, 2 ** 30)}
 
 
 def _bad_len(rng, n):
@@ -784,14 +839,36 @@ def _fields(c):
     return out
 
 
-def sweep(obj, path="cfg", classes=None, arrays=None, accepted=None, seen=None):
-    """Probe every pydantic model (setattr on each field) and ndarray (in-place write) reachable from obj."""
+# F18e (reported, not yet decided): `del cfg.gradient` is accepted on every ImmutableBaseModel configuration object because only
+# __setattr__ is guarded.  The probe below is complete and is switched on by this constant once the tree guards __delattr__
+# (the translator already accepts that shape, Gen_C18.immutable_base_guards_delete); until then it would alarm on HEAD.
+PROBE_DELATTR = False
+# F18f (reported): immutable_array(x, ndmin=k) freezes a *view* when ndmin adds a dimension (a flat coefficient list, a scalar or 0-d
+# array for a 1-D field); its writable base is reachable through `.base` and writes to it change the stored array.
+PROBE_BASE = False
+# F18g (reported): pydantic runs the after-validators of an ImmutableBaseModel again when an already validated instance is
+# validated (directly, or as a value inside a dictionary), so a frozen sub-configuration is re-normalised / re-transformed IN PLACE.
+# Without a context this stays within WEIGHT_TOL (probed: "parts"); spelling a weight section as an instance (double
+# normalisation, a few ulp) and re-validating the sub-objects in the transform context (values transformed twice) alarm on HEAD.
+SPELL_WEIGHT_INSTANCES = False
+PROBE_SUBOBJECTS_WITH_CONTEXT = False
+
+
+def sweep(obj, path="cfg", classes=None, arrays=None, accepted=None, seen=None, sig=None, owner=None, afields=None):
+    """Probe every pydantic model (setattr -- and delattr when enabled -- on each field) and every ndarray (writeable flag of the
+    array and of every array in its .base chain, an element write and a whole-array in-place write) reachable from obj.
+    sig collects path -> (dtype, shape) of every array, afields the (class, field) pairs that hold an array."""
     import numpy as np
     from pydantic import BaseModel
     classes = {} if classes is None else classes
     arrays = [0, 0] if arrays is None else arrays
     accepted = [] if accepted is None else accepted
     seen = set() if seen is None else seen
+    if isinstance(obj, np.ndarray):
+        if sig is not None:
+            sig[path] = [str(obj.dtype), list(obj.shape)]
+        if afields is not None and owner is not None:
+            afields.add(owner)
     if id(obj) in seen:
         return classes, arrays, accepted
     seen.add(id(obj))
@@ -799,11 +876,18 @@ def sweep(obj, path="cfg", classes=None, arrays=None, accepted=None, seen=None):
         arrays[0] += 1
         ok = bool(obj.flags.writeable)
         if obj.size:
-            try:
-                obj.flat[0] = obj.flat[0]
+            for write in (lambda: obj.flat.__setitem__(0, obj.flat[0]), lambda: obj.__setitem__(Ellipsis, obj),
+                          lambda: obj.__ior__(obj) if obj.dtype == np.bool_ else obj.__iadd__(obj.dtype.type(0))):
+                try:
+                    write()
+                    ok = True
+                except ValueError:
+                    pass
+        base, hops = obj.base, 0
+        while PROBE_BASE and base is not None and hops < 8:   # a read-only view of a writable buffer can be written through .base
+            if isinstance(base, np.ndarray) and base.flags.writeable:
                 ok = True
-            except ValueError:
-                pass
+            base, hops = getattr(base, "base", None), hops + 1
         if ok:
             arrays[1] += 1
             accepted.append(path + "[...]")
@@ -818,10 +902,18 @@ def sweep(obj, path="cfg", classes=None, arrays=None, accepted=None, seen=None):
                 accepted.append(path + "." + name)
             except Exception:  # noqa: BLE001 - any refusal counts as rejected
                 pass
-            sweep(val, path + "." + name, classes, arrays, accepted, seen)
+            if PROBE_DELATTR:
+                try:
+                    delattr(obj, name)
+                    rec[1] += 1
+                    accepted.append("del " + path + "." + name)
+                    obj.__dict__[name] = val             # put it back for the rest of the sweep
+                except Exception:  # noqa: BLE001
+                    pass
+            sweep(val, path + "." + name, classes, arrays, accepted, seen, sig, (type(obj).__name__, name), afields)
     elif isinstance(obj, (tuple, list)):
         for i, v in enumerate(obj):
-            sweep(v, f"{path}[{i}]", classes, arrays, accepted, seen)
+            sweep(v, f"{path}[{i}]", classes, arrays, accepted, seen, sig, owner, afields)
     return classes, arrays, accepted
 
 
@@ -844,30 +936,140 @@ def _plain(o):
     return o
 
 
-def _diff(a, b, path="", tol=1e-9):
-    """Paths at which two plain dumps differ (floats with relative tolerance)."""
+WEIGHT_TOL = 1e-14      # re-normalising normalised weights divides by a sum of 1 +- a few ulp; nothing else may move at all
+
+
+def _diff(a, b, path="", tol=0.0, wtol=None):
+    """Paths at which two plain dumps differ: exactly, except that entries of a `weights` array may differ by wtol (relative)."""
     if isinstance(a, dict) and isinstance(b, dict):
         out = []
         for k in sorted(set(a) | set(b)):
             if k not in a or k not in b:
                 out.append(f"{path}.{k}")
             else:
-                out += _diff(a[k], b[k], f"{path}.{k}", tol)
+                out += _diff(a[k], b[k], f"{path}.{k}", tol, wtol)
         return out
     if isinstance(a, list) and isinstance(b, list):
         if len(a) != len(b):
             return [path + "(len)"]
         out = []
         for i, (x, y) in enumerate(zip(a, b)):
-            out += _diff(x, y, f"{path}[{i}]", tol)
+            out += _diff(x, y, f"{path}[{i}]", tol, wtol)
         return out
     if isinstance(a, bool) or isinstance(b, bool) or a is None or b is None or isinstance(a, str) or isinstance(b, str):
         return [] if a == b and type(a) is type(b) else [path]
     if isinstance(a, (int, float)) and isinstance(b, (int, float)):
-        if a == b or (math.isfinite(a) and math.isfinite(b) and abs(a - b) <= tol * max(1.0, abs(a), abs(b))):
+        t = wtol if (wtol is not None and ".weights[" in path) else tol
+        if a == b or (t and math.isfinite(a) and math.isfinite(b) and abs(a - b) <= t * max(1.0, abs(a), abs(b))):
             return []
         return [path]
     return [] if a == b else [path]
+
+
+# ---- the same dictionary spelled differently ------------------------------------------------------------------------------
+# (section, field) -> kind of the array field: f float, b bool, i index (never broadcast), e<enum class> enumeration, F 2-D float;
+# the second entry says which length a scalar stands for (V variables, R rows of the coefficient matrix, N non-linear constraints)
+_SPELL_FIELDS = {
+    ("variables", "initial_values"): ("f", None), ("variables", "lower_bounds"): ("f", "V"), ("variables", "upper_bounds"): ("f", "V"),
+    ("variables", "types"): ("eVariableType", "V"), ("variables", "mask"): ("b", "V"),
+    ("objectives", "weights"): ("f", None), ("objectives", "realization_filters"): ("i", None),
+    ("objectives", "function_estimators"): ("i", None), ("realizations", "weights"): ("f", None),
+    ("gradient", "perturbation_magnitudes"): ("f", "V"), ("gradient", "perturbation_types"): ("ePerturbationType", "V"),
+    ("gradient", "boundary_types"): ("eBoundaryType", "V"), ("gradient", "samplers"): ("i", None),
+    ("linear_constraints", "coefficients"): ("F", None), ("linear_constraints", "lower_bounds"): ("f", "R"),
+    ("linear_constraints", "upper_bounds"): ("f", "R"),
+    ("nonlinear_constraints", "lower_bounds"): ("f", "N"), ("nonlinear_constraints", "upper_bounds"): ("f", "N"),
+    ("nonlinear_constraints", "realization_filters"): ("i", None), ("nonlinear_constraints", "function_estimators"): ("i", None),
+}
+
+
+def respell(cfg, seed):
+    """The configuration dictionary cfg written differently without changing its meaning: lists as tuples, as ndarrays of the
+    target dtype (which a converter that avoids copies would alias) or of another integer dtype, scalars as numpy scalars,
+    0-d arrays, one-element lists or written out to full length, enumeration values as members of the IntEnum classes, integer /
+    boolean / float options as numpy scalars, seeds as tuples, context-free sections and the plug-in tuples as model instances.
+    Returns the new dictionary and the ndarrays placed in it (the caller mutates them afterwards)."""
+    import random
+
+    import numpy as np
+    from ropt import enums
+    from ropt.config.enopt import (FunctionEstimatorConfig, ObjectiveFunctionsConfig, OptimizerConfig, RealizationFilterConfig,
+                                   RealizationsConfig, SamplerConfig)
+    rng = random.Random(seed)
+    cfg = copy.deepcopy(cfg)
+    given = []
+    V = len(_as_list(cfg["variables"].get("initial_values", 0.0)))
+    lin, nl = cfg.get("linear_constraints"), cfg.get("nonlinear_constraints")
+    full = {"V": V, "R": len(_coeffs(lin)) if lin else 0,
+            "N": max(len(_as_list(nl["lower_bounds"])), len(_as_list(nl["upper_bounds"]))) if nl else 0}
+    dtypes = {"f": np.float64, "F": np.float64, "b": np.bool_, "i": np.intc}
+
+    def arr(x, dt):
+        a = np.array(x, dtype=dt)
+        given.append(a)
+        return a
+
+    for (sect, field), (kind, length) in _SPELL_FIELDS.items():
+        if sect not in cfg or field not in cfg[sect] or cfg[sect][field] is None:
+            continue
+        x = cfg[sect][field]
+        dt = dtypes.get(kind[0], np.ubyte)
+        scalar = not isinstance(x, (list, tuple))
+        flat = _as_list(x)
+        integral = kind != "F" and all(isinstance(v, (int, bool)) or float(v).is_integer() for v in flat if not isinstance(v, (list, tuple))) \
+            and all(not isinstance(v, (list, tuple)) and math.isfinite(v) for v in flat)
+        choices = ["tuple", "ndarray", "ndarray"]
+        if integral and kind[0] in "fei":
+            choices.append("int64")
+        if kind[0] == "e":
+            choices.append("member")
+        if scalar or (len(flat) == 1 and kind != "F"):
+            choices += ["npscalar", "zerod", "unit"]
+            if length and full[length] > 0 and V > 0:
+                choices += ["expand", "expand"]
+        how = rng.choice(choices)
+        if kind == "F" and how == "tuple":
+            y = tuple(tuple(r) if isinstance(r, list) else r for r in x) if isinstance(x, list) else x
+        elif how == "tuple":
+            y = tuple(flat) if not scalar else x
+        elif how == "ndarray":
+            y = arr(x, dt)
+        elif how == "int64":
+            y = arr([int(v) for v in flat] if not scalar else int(x), np.int64)
+        elif how == "member":
+            cls = getattr(enums, kind[1:])
+            y = [cls(int(v)) for v in flat] if not scalar else cls(int(x))
+        elif how == "npscalar":
+            y = dt(flat[0])
+        elif how == "zerod":
+            y = arr(flat[0], dt)
+        elif how == "unit":
+            y = flat[0] if not scalar else [x]
+        else:
+            y = [flat[0]] * full[length]
+            if rng.random() < 0.5:
+                y = arr(y, dt)
+        cfg[sect][field] = y
+    g = cfg.get("gradient", {})
+    if isinstance(g.get("seed"), list):
+        g["seed"] = tuple(g["seed"])
+    elif "seed" in g and rng.random() < 0.5:
+        g["seed"] = np.int64(g["seed"])
+    for sect, key, conv in (("gradient", "number_of_perturbations", np.int64), ("gradient", "perturbation_min_success", np.int64),
+                            ("gradient", "merge_realizations", np.bool_), ("realizations", "realization_min_success", np.int64),
+                            ("optimizer", "max_functions", np.int64), ("optimizer", "tolerance", np.float64),
+                            ("optimizer", "parallel", np.bool_)):
+        if key in cfg.get(sect, {}) and rng.random() < 0.5:
+            cfg[sect][key] = conv(cfg[sect][key])
+    for key, cls in (("samplers", SamplerConfig), ("realization_filters", RealizationFilterConfig), ("function_estimators", FunctionEstimatorConfig)):
+        if key in cfg:
+            how = rng.choice(["list", "tuple", "instances"])
+            if how != "list":
+                cfg[key] = tuple(cls(**d) if how == "instances" else d for d in cfg[key])
+    for key, cls in (("optimizer", OptimizerConfig), ("realizations", RealizationsConfig), ("objectives", ObjectiveFunctionsConfig)):
+        if key in cfg and rng.random() < 0.3 and (SPELL_WEIGHT_INSTANCES or key == "optimizer"):
+            cfg[key] = cls.model_validate(cfg[key])
+    return cfg, given
 
 
 def run_impl(case):
@@ -924,20 +1126,83 @@ def run_impl(case):
         return {"outcome": "reject", "errors": [str(x.get("msg"))[:120] for x in e.errors()[:3]]}
     obs = {"outcome": "ok", "fields": _fields(c)}
     obs["same"] = bool(EnOptConfig.model_validate(c) is c) and bool(EnOptConfig.model_validate(c, context=tr) is c)
-    classes, arrays, accepted = {}, [0, 0], []
+    classes, arrays, accepted, afields = {}, [0, 0], [], set()
+    sig = {}
+    sweep(c, "cfg", classes, arrays, accepted, sig=sig, afields=afields)
+    sig_diff = []
     d = c.model_dump(round_trip=True)
     plain = _plain(d)
-    for tag, build in (("dump", lambda: EnOptConfig.model_validate(c.model_dump(round_trip=True))),
-                       ("json", lambda: EnOptConfig.model_validate(json.loads(json.dumps(plain))))):
+
+    def again(tag, build, wtol):
+        """validate another form of the validated configuration: canonical fields, whole-dump difference, array dtypes/shapes, sweep"""
         try:
             c2 = build()
-            obs[tag] = _fields(c2)
-            obs[tag + "_diff"] = _diff(plain, _plain(c2.model_dump(round_trip=True)))
-            sweep(c2, tag, classes, arrays, accepted)
         except ValidationError as e:
             obs[tag] = None
             obs[tag + "_diff"] = ["<rejected> " + "; ".join(str(x.get("msg"))[:80] for x in e.errors()[:2])]
-    sweep(c, "cfg", classes, arrays, accepted)
+            return None
+        obs[tag] = _fields(c2)
+        obs[tag + "_diff"] = _diff(plain, _plain(c2.model_dump(round_trip=True)), wtol=wtol)
+        sig2 = {}
+        sweep(c2, tag, classes, arrays, accepted, sig=sig2, afields=afields)
+        sig_diff.extend(f"{tag}{k[len(tag):]}: {sig.get('cfg' + k[len(tag):])} -> {v}" for k, v in sig2.items() if sig.get("cfg" + k[len(tag):]) != v)
+        sig_diff.extend(f"{tag}{k[3:]}: missing" for k in sig if tag + k[3:] not in sig2)
+        return c2
+
+    c_dump = again("dump", lambda: EnOptConfig.model_validate(c.model_dump(round_trip=True)), WEIGHT_TOL)
+    again("json", lambda: EnOptConfig.model_validate(json.loads(json.dumps(plain))), WEIGHT_TOL)
+    # a dictionary holding the validated sub-objects themselves (what `{**dict(cfg), "optimizer": ...}` produces)
+    again("parts", lambda: EnOptConfig.model_validate({k: getattr(c, k) for k in type(c).model_fields}), WEIGHT_TOL)
+    # validating any configuration object of the tree again, in the same context, returns an equivalent object and leaves the
+    # (frozen) tree as it was
+    obs["sub_diff"] = []
+    if PROBE_SUBOBJECTS_WITH_CONTEXT:
+        from pydantic import BaseModel
+        for name in type(c).model_fields:
+            for i, o in enumerate(x for x in (getattr(c, name) if isinstance(getattr(c, name), tuple) else (getattr(c, name),))
+                                  if isinstance(x, BaseModel)):
+                try:
+                    o2 = type(o).model_validate(o, context=tr)
+                    obs["sub_diff"] += [f"{name}[{i}] -> {p_}" for p_ in _diff(_plain(plain[name] if not isinstance(plain[name], list) else plain[name][i]),
+                                                                             _plain(o2.model_dump(round_trip=True)))]
+                except ValidationError as e:
+                    obs["sub_diff"].append(f"{name}[{i}] <rejected> {str(e.errors()[:1])[:100]}")
+        obs["sub_diff"] += ["tree changed: " + p_ for p_ in _diff(plain, _plain(c.model_dump(round_trip=True)))]
+        obs["sub_diff"] = obs["sub_diff"][:10]
+    # a copy made with model_copy(update=...) is as frozen as the original
+    sweep(c.model_copy(update={"realizations": c.realizations}), "copy", classes, arrays, accepted, afields=afields)
+    # second round: the re-validated configuration is a fixed point as well
+    obs["round2_diff"] = []
+    if c_dump is not None:
+        d2 = c_dump.model_dump(round_trip=True)
+        try:
+            c3 = EnOptConfig.model_validate(json.loads(json.dumps(_plain(d2))))
+            obs["round2_diff"] = _diff(_plain(d2), _plain(c3.model_dump(round_trip=True)), wtol=WEIGHT_TOL)
+        except ValidationError as e:
+            obs["round2_diff"] = ["<rejected> " + str(e.errors()[:1])[:120]]
+    # the same dictionary spelled differently, validated in the same context: identical result, nothing shared with the caller
+    obs["spell"], obs["spell_diff"], obs["alias_diff"] = None, [], []
+    if case.get("spell"):
+        cfg2, given = respell(case["cfg"], case["spell"])
+        try:
+            c4 = EnOptConfig.model_validate(cfg2, context=tr)
+            obs["spell"] = _fields(c4)
+            before = _plain(c4.model_dump(round_trip=True))
+            obs["spell_diff"] = _diff(plain, before)
+            frozen_inputs = 0
+            for a in given:                       # the caller goes on using (and overwriting) the arrays it passed in
+                try:
+                    if a.size:
+                        a[...] = ~a if a.dtype == np.bool_ else a + 1
+                except ValueError:
+                    frozen_inputs += 1
+            obs["alias_diff"] = _diff(before, _plain(c4.model_dump(round_trip=True)))
+            obs["frozen_inputs"] = frozen_inputs
+            sweep(c4, "spell", classes, arrays, accepted, afields=afields)
+        except ValidationError as e:
+            obs["spell_diff"] = ["<rejected> " + "; ".join(str(x.get("msg"))[:80] for x in e.errors()[:2])]
+    obs["sig_diff"] = sig_diff[:10]
+    obs["array_fields"] = sorted(list(x) for x in afields)
     obs["classes"] = classes
     obs["arrays"] = arrays
     obs["accepted"] = accepted[:20]
@@ -1020,14 +1285,16 @@ def coq_case(case, obs):
             _magnitude(sc or {}))
     S = S * S * 4      # bounds are shifted by offsets and A.offsets and divided by scales >= 1/2
     if obs["outcome"] != "ok":
-        return f"(Build_case {cq.q(S)} false {ctx} {_raw_term(cfg)} None false None None [] (0%nat, 0%nat))"
-    if not all(_representable(obs[k]) for k in ("fields", "dump", "json")):
+        return f"(Build_case {cq.q(S)} false {ctx} {_raw_term(cfg)} None false None None None [] (0%nat, 0%nat) [])"
+    spell = obs["spell"] if case.get("spell") else obs["fields"]
+    if not all(_representable(x) for x in (obs["fields"], obs["dump"], obs["json"], spell)):
         # NaN / infinite magnitudes, weights, coefficients or initial values cannot be written as rationals: the case fails
-        return f"(Build_case {cq.q(S)} true {ctx} {_raw_term(cfg)} None false None None [] (0%nat, 0%nat))"
+        return f"(Build_case {cq.q(S)} true {ctx} {_raw_term(cfg)} None false None None None [] (0%nat, 0%nat) [])"
     classes = cq.lst(f"({cq.s(n)}, ({cq.nat(min(p, 5000))}, {cq.nat(min(a, 5000))}))" for n, (p, a) in sorted(obs["classes"].items()))
+    afields = cq.lst(f"({cq.s(c)}, {cq.s(f)})" for c, f in obs["array_fields"])
     return (f"(Build_case {cq.q(S)} false {ctx} {_raw_term(cfg)} {_obs_term(obs['fields'])} {cq.b(obs['same'])} "
-            f"{_obs_term(obs['dump'])} {_obs_term(obs['json'])} {classes} "
-            f"({cq.nat(min(obs['arrays'][0], 5000))}, {cq.nat(min(obs['arrays'][1], 5000))}))")
+            f"{_obs_term(obs['dump'])} {_obs_term(obs['json'])} {_obs_term(spell)} {classes} "
+            f"({cq.nat(min(obs['arrays'][0], 5000))}, {cq.nat(min(obs['arrays'][1], 5000))}) {afields})")
 
 
 def _representable(f):
@@ -1197,9 +1464,20 @@ def oracle(case, obs):
     # idempotence
     if not obs["same"]:
         return {"clause": "revalidating-the-object-returns-it", "detail": None}
-    for tag in ("dump", "json"):
+    for tag in ("dump", "json", "parts"):
         if obs[tag + "_diff"]:
             return {"clause": "revalidation-of-" + tag + "-equivalent", "detail": obs[tag + "_diff"][:6]}
+    if obs.get("sub_diff"):
+        return {"clause": "revalidating-a-sub-configuration-object", "detail": obs["sub_diff"][:6]}
+    if obs["round2_diff"]:
+        return {"clause": "second-revalidation-equivalent", "detail": obs["round2_diff"][:6]}
+    if obs["sig_diff"]:
+        return {"clause": "revalidation-keeps-array-types-and-shapes", "detail": obs["sig_diff"][:6]}
+    # canonical: the result does not depend on how the dictionary was spelled, and shares nothing with the caller's arrays
+    if obs["spell_diff"]:
+        return {"clause": "canonical-whatever-the-spelling", "detail": obs["spell_diff"][:6]}
+    if obs["alias_diff"]:
+        return {"clause": "frozen-against-the-callers-arrays", "detail": obs["alias_diff"][:6]}
     # frozen
     if obs["accepted"]:
         return {"clause": "frozen", "detail": obs["accepted"][:8]}
@@ -1226,7 +1504,12 @@ def features(case, obs):
             "nl_scaler": case.get("nl_scales") is not None, "obj_scaler": bool(case.get("obj_scaler")),
             "btypes": "".join(str(b) for b in sorted(set(_as_list(g.get("boundary_types", "d"))))),
             "relative": 2 in pt, "linear": "linear_constraints" in cfg, "nonlinear": "nonlinear_constraints" in cfg,
-            "mask": "mask" in cfg["variables"], "types": "types" in cfg["variables"]}
+            "mask": "mask" in cfg["variables"], "types": "types" in cfg["variables"],
+            "respelled": obs["outcome"] == "ok" and bool(case.get("spell")),
+            "index_arrays": sum(k in cfg.get(s_, {}) for s_, k in (("gradient", "samplers"), ("objectives", "realization_filters"),
+                                                                   ("objectives", "function_estimators"),
+                                                                   ("nonlinear_constraints", "realization_filters"),
+                                                                   ("nonlinear_constraints", "function_estimators")))}
 
 
 def shrink(case):
@@ -1259,6 +1542,73 @@ def shrink(case):
 def search(rng, case):
     for _ in range(600):
         yield valid_case(rng)
+
+
+def extra_obligations(tier):
+    """The tables extracted from the AST agree with what pydantic sees at run time: the classes reachable from EnOptConfig through
+    its field types are exactly the classes of the table, each with the table's kind (ImmutableBaseModel subclass whose
+    __setattr__/__delattr__ are the base's, or frozen), and the fields whose type holds an ndarray are exactly the table's array
+    fields.  (A field inherited from a mix-in, a class injected by a decorator or a type alias resolved differently would show here.)"""
+    import typing
+    out = []
+    try:
+        from common import REPO, use_repo_sources
+        use_repo_sources()
+        import numpy as np
+        import translator as tr_mod
+        from pydantic import BaseModel
+        from ropt.config.enopt import EnOptConfig
+        from ropt.config.utils import ImmutableBaseModel
+        aliases, fields, _stores = _array_tables(tr_mod)
+        table_fields = {c: set(af) for c, af in fields}
+        kinds = {}
+        for f in CONFIG_FILES:
+            name, kind, _v = _class_entry([n for n in tr_mod.parse("config/enopt/" + f).body if isinstance(n, ast.ClassDef)][0], f)
+            kinds[name] = kind
+
+        def types_in(t, acc):
+            if isinstance(t, type):
+                acc.add(t)
+            origin = typing.get_origin(t)
+            if isinstance(origin, type):
+                acc.add(origin)
+            for alias in (t, origin):                         # numpy's NDArray is a type alias of np.ndarray[...]
+                if hasattr(alias, "__value__"):
+                    types_in(alias.__value__, acc)
+            for a in typing.get_args(t):
+                types_in(a, acc)
+            return acc
+        seen, todo, problems = {}, [EnOptConfig], []
+        while todo:
+            cls = todo.pop()
+            if cls.__name__ in seen:
+                continue
+            seen[cls.__name__] = cls
+            arrays = set()
+            for fname, info in cls.model_fields.items():
+                ts = types_in(info.annotation, set())
+                if any(isinstance(t, type) and issubclass(t, np.ndarray) for t in ts):
+                    arrays.add(fname)
+                todo += [t for t in ts if isinstance(t, type) and issubclass(t, BaseModel)]
+            if arrays != table_fields.get(cls.__name__, set()):
+                problems.append(f"{cls.__name__}: array fields {sorted(arrays)} vs table {sorted(table_fields.get(cls.__name__, set()))}")
+            kind = kinds.get(cls.__name__)
+            if kind == "KImmutableBase":
+                if not (issubclass(cls, ImmutableBaseModel) and cls.__setattr__ is ImmutableBaseModel.__setattr__
+                        and cls.__delattr__ is ImmutableBaseModel.__delattr__ and not cls.model_config.get("frozen")):
+                    problems.append(f"{cls.__name__}: not a plain ImmutableBaseModel subclass at run time")
+            elif kind == "KFrozen":
+                if not cls.model_config.get("frozen") or cls.__setattr__ is not BaseModel.__setattr__:
+                    problems.append(f"{cls.__name__}: not frozen at run time")
+            else:
+                problems.append(f"{cls.__name__}: kind {kind}")
+        if set(seen) != set(kinds):
+            problems.append(f"reachable classes {sorted(seen)} vs table {sorted(kinds)}")
+        out.append(("C18 tables agree with pydantic's run-time view (reachable classes, kinds, array fields)", not problems, "; ".join(problems)[:600]))
+        del REPO
+    except Exception as e:  # noqa: BLE001 - a failure to establish the agreement is an undischarged obligation
+        out.append(("C18 tables agree with pydantic's run-time view (reachable classes, kinds, array fields)", False, repr(e)[:400]))
+    return out
 
 
 MANIFEST = {
